@@ -640,6 +640,16 @@ impl Check for C19 {
                     _ => false,
                 };
                 let on_wire: Vec<&CPacket> = w.conns.iter().flat_map(|c| c.out.packets.iter()).map(|k| &k.pkt).filter(|k| marked(k)).collect();
+                // a disconnect() after one that was given up only completes the DISCONNECT already
+                // begun: its own packet is never encoded, so a value that fails at encoding (longer
+                // than 65535 bytes) is not looked at (same exemption as in the cell workload)
+                let closing = ctx == Ctx::Disconnect && log.ops.iter().take(d.req_op.unwrap_or(0)).any(|o| o.kind == "disconnect" && o.conn == op.conn && !matches!(o.outcome, Outcome::Err(ErrRepr::InvalidRequest)));
+                let v = if closing && v == V::Reject && set.iter().zip(&vs).all(|(p, x)| *x != V::Reject || too_long(p)) {
+                    out.count("random_history_oversize_disconnects_on_a_closing_handle", 1);
+                    V::DontCare
+                } else {
+                    v
+                };
                 match v {
                     V::Reject => {
                         out.count("random_history_rejects_judged", 1);
